@@ -6,7 +6,7 @@ COMMON_TRUSTED = [
     "Lean compiler/runtime for the executable instantiations of the models (Float, Float32, Rat, UInt64, List, String)",
 ]
 
-HOOK_COMMITS = ["f19adfe", "71427de", "9be2068", "df621b3", "8e0d3b7", "51d7784", "e5f5adf"]
+HOOK_COMMITS = ["f19adfe", "71427de", "9be2068", "df621b3", "8e0d3b7", "51d7784", "e5f5adf", "6b85ba2"]
 
 NOT_APPLICABLE = {}
 
@@ -98,17 +98,20 @@ PROPS = {
         "assumptions": ["uniform variates lie in [0,1)"],
     },
     "C04": {
-        "obligations": [DA + n for n in ["adaptStep_counters", "eps_pos_step", "eps_pos", "eps_frozen_step", "eps_frozen", "second_run_no_adapt", "hbar_step",
+        "obligations": [DA + n for n in ["adaptStep_counters", "clampOrd_mem", "clampOrd_of_mem", "eps_in_range_step", "eps_in_range", "real_clamp_law", "eps_pos", "eps_frozen_step", "eps_frozen", "second_run_no_adapt", "hbar_step",
                                          "hbar_closed_form", "hbar_bounded", "log_eps_dual_avg", "initChain_spec"]],
         "rel32": 2e-3, "abs32": 1e-4, "rel64": 1e-6, "abs64": 1e-9,
         "timeout": 3000,
-        "level_text": "Theorems over R, for every history of acceptance statistics: the step size and the averaged iterate are positive after every transition; once the transition number exceeds n_discard the step size equals the "
-                      "averaged iterate and neither changes for the rest of the run; a later run whose warm-up length does not exceed the persistent counter never adapts; (m+t0)*H_bar grows by exactly delta - a per transition "
-                      "(closed form of Nesterov's averaged deficit) and stays within [delta-1, delta] for statistics in [0,1]; in warm-up ln eps = mu - sqrt(m)/gamma * H_bar and ln eps_bar is the m^-kappa-weighted average; init_chain keeps m, H_bar, "
+        "level_text": "Theorems, for every history of acceptance statistics. For EVERY carrier with a comparison (no order axioms, so NaN-like incomparable values are covered): the coded clamp e.max(lo).min(hi) lands in [lo,hi] "
+                      "for every e as soon as lo<=lo, lo<=hi, hi<=hi, hence step size and averaged iterate stay in [min_positive, max] after every transition whatever exp/ln/sqrt/powf return (eps_in_range). Over R: positivity as a corollary; "
+                      "once the transition number exceeds n_discard the step size equals the averaged iterate and neither it nor H_bar changes for the rest of the run; a later run whose warm-up length does not exceed the persistent "
+                      "counter never adapts; during warm-up (m+t0)*H_bar grows by exactly delta - a per transition (closed form of Nesterov's averaged deficit) and stays within [delta-1, delta] for statistics in [0,1]; in warm-up, while "
+                      "the exponentials stay inside [lo,hi], ln eps = mu - sqrt(m)/gamma * H_bar and ln eps_bar is the m^-kappa-weighted average; init_chain keeps m, H_bar, "
                       "eps_bar and sets mu = ln(10 eps). Tied to nuts.rs by stepping real chains through 1-3 consecutive runs, reading (m, eps, eps_bar, H_bar, mu) after every transition (hook accessor) and the transition's "
                       "alpha/n_alpha (hook trace), and replaying the model at Float; find_reasonable_epsilon is replayed as well; freezing / positivity are also checked on the implementation bit for bit.",
-        "level_note": "Partial: 'finite' in f32/f64 is observed on traces, not proved for all targets; 'realised acceptance close to the requested one' is statistical — not decided. Observation (not a property violation): "
-                      "resuming dual averaging after a run that froze a far too large step size can collapse eps to ~1e-12, which makes the un-capped tree doubling astronomically deep; such histories are cut (counted).",
+        "level_note": "Partial: the first-use step size from find_reasonable_epsilon is not clamped by the code and is only observed positive and finite on traces; 'realised acceptance close to the requested one' is statistical — not decided. "
+                      "Finding F9 (fixed by aad1add): H_bar used to be updated after warm-up too, so a later run that resumed adaptation collapsed eps (exactly 0 in f32). The library has no tree-depth cap, so a tiny but positive "
+                      "step size still makes a transition astronomically long; such histories are cut by the harness (counted).",
         "rule": "chains on 2-D Gaussians, random SPD Gaussians (dim 1-6), Student-t, Rosenbrock; delta uniform in (0.5,0.99); histories of 1-3 runs with warm-up 0, 1-5 or 5-60 (thorough 5-400) and 2-25 collected; f32 and f64; "
                 "distinct by (type, target, c, d, run index, seed)",
         "trusted": ["libm exp/ln/sqrt/powf; rounding not modelled (tolerances 2e-3 f32 / 1e-6 f64)", "hook accessor verif_adapt_state returns the private fields"],
@@ -132,15 +135,15 @@ PROPS = {
     "C15": {
         "module": "MiniMcmcVerif.Props.C15Measure",
         "obligations": [DI + n for n in ["gauss2d_norm_minus_unnorm_const", "quad2_eq", "dgNew_inverse", "dgNew_normConst", "diffable_batch_rowwise", "dg_eq_gauss2d",
-                                         "gaussian_hasGradient", "rosenbrock2d_hasGradient", "iso_logp_eq_normal", "iso_logp_symm", "exp_lnNormal",
+                                         "gaussian_hasGradient", "rosenbrock2d_hasGradient", "rosenbrockND_hasGradient", "rosenND_cons", "iso_logp_eq_normal", "iso_logp_symm", "exp_lnNormal",
                                          "exp_lnNormal_eq_gaussianPDF", "iso_density_integrates_to_one"]],
         "rel32": 5e-3, "abs32": 2e-3, "rel64": 3e-4, "abs64": 1e-4,
         "level_text": "Theorems over R about the closed forms the driver executes: Gaussian2D's normalised and unnormalised forms differ by the constant -ln(2pi) - 1/2 ln|Sigma|; the quadratic form is the Mahalanobis form; "
                       "DiffableGaussian2D::new computes the inverse and the normalising constant, its batched and single-point forms agree row by row and equal the normalised 2-D Gaussian; the closed-form gradients of the Gaussian "
-                      "and of Rosenbrock2D are the derivatives (HasDerivAt, coordinate-wise); IsotropicGaussian::logp(from,to) is the sum of one-dimensional normal log-densities with mean from_i and standard deviation std, symmetric, "
+                      "of Rosenbrock2D and of RosenbrockND (every dimension, every coordinate: t -> rosenND (x.set k t) has derivative rosenNDGradAt x k at x[k]) are the derivatives (HasDerivAt, coordinate-wise); IsotropicGaussian::logp(from,to) is the sum of one-dimensional normal log-densities with mean from_i and standard deviation std, symmetric, "
                       "and exp of each term is Mathlib's gaussianPDFReal, which integrates to 1. Tied to distributions.rs by evaluating every public method and the autodiff gradients HMC/NUTS use against the model at Float.",
-        "level_note": "Trusted: burn autodiff returns the gradient of the tensor program (cross-checked numerically against the closed forms on every run); libm ln. RosenbrockND's closed-form gradient is used by the driver but not proved "
-                      "(HasDerivAt over a list-indexed sum) — it is validated against autodiff only. sample() is checked bit-exactly against from + std*z for the reference normal stream, or statistically if drawn differently.",
+        "level_note": "Trusted: burn autodiff returns the gradient of the tensor program (cross-checked numerically against the closed forms on every run); libm ln. "
+                      "sample() is checked bit-exactly against from + std*z for the reference normal stream, or statistically if drawn differently.",
         "rule": "random means, SPD covariances with condition number up to 1e4, points, batches of 1-64, std log-uniform in (1e-3,1e3), dimension 1-32 (RosenbrockND 2-32), f32 and f64 scalars and backends; five families "
                 "(Gaussian2D, DiffableGaussian2D batched/single/gradients, IsotropicGaussian logp both ways + unnorm + sample + set_seed, Rosenbrock2D, RosenbrockND); distinct by (family, type, size, first value)",
         "trusted": ["burn autodiff computes the gradient of the tensor expression", "f32-level relative accuracy (5e-3 / 3e-4) is what the tensor-based targets deliver: from_floats stores parameters as f32"],
